@@ -682,6 +682,348 @@ theorem ttpEntries_all_and (cs : List (Cond α)) (ls : List (Latch α)) :
       · rfl
       · exact ih ls e he
 
+/-! ### histories of the condition list of one model
+
+`Reg` = pool latches + the model's registered list; `Reg.after` = state after any sequence of
+addStoppingCondition / clearStoppingConditions / reset / solve / TTPCalculator(model, …). -/
+
+/-- testing the same row twice is the same as testing it once (an object registered twice is
+polled twice per step) -/
+theorem test_idem (d : PData α) (n : Nat) (c : Cond α) (l : Latch α) :
+    test d n c (test d n c l) = test d n c l := by
+  by_cases hs : (test d n c l).sat = true
+  · exact test_of_sat d n c _ hs
+  · have h := (not_congr (test_sat_iff d n c l)).mp hs
+    have h1 : l.sat = false := by
+      cases hl : l.sat with
+      | false => rfl
+      | true => exact absurd (Or.inl hl) h
+    have h2 : holds c.dir c.value (poll d c n) = false := by
+      cases hh : holds c.dir c.value (poll d c n) with
+      | false => rfl
+      | true => exact absurd (Or.inr hh) h
+    rw [test_not_met d n c l h1 h2]
+    exact test_not_met d n c ⟨false, l.time⟩ rfl h2
+
+theorem foldl_add_reg (is : List Nat) (s : Reg α) :
+    (is.foldl (fun s i => s.add i false) s).reg = s.reg ++ is.map (fun i => (i, false)) := by
+  induction is generalizing s with
+  | nil => simp
+  | cons i is ih =>
+    simp only [List.foldl_cons, List.map_cons]
+    rw [ih]; simp [Reg.add]
+
+theorem foldl_add_latches (is : List Nat) (s : Reg α) :
+    (is.foldl (fun s i => s.add i false) s).latches = s.latches := by
+  induction is generalizing s with
+  | nil => rfl
+  | cons i is ih => simp only [List.foldl_cons]; rw [ih]; rfl
+
+/-- **the TTP constructor leaves exactly its own conditions registered, all 'and'**, whatever the
+model carried before -/
+theorem ttpInit_reg (s : Reg α) (is : List Nat) :
+    (s.ttpInit is).reg = is.map (fun i => (i, false)) := by
+  unfold Reg.ttpInit; rw [foldl_add_reg]; simp [Reg.clear]
+
+/-- … and does not touch any latch -/
+theorem ttpInit_latches (s : Reg α) (is : List Nat) : (s.ttpInit is).latches = s.latches := by
+  unfold Reg.ttpInit; rw [foldl_add_latches]; rfl
+
+/-- the registered list after one call: `add` appends, `clear` empties, the TTP constructor
+replaces, `reset` and `solve` leave it alone -/
+theorem step_reg (conds : Nat → Cond α) (s : Reg α) (o : Op α) :
+    (s.step conds o).reg = match o with
+      | .add i b => s.reg ++ [(i, b)]
+      | .clear => []
+      | .reset => s.reg
+      | .solve _ _ _ _ => s.reg
+      | .ttpInit is => is.map (fun i => (i, false)) := by
+  cases o with
+  | add i b => rfl
+  | clear => rfl
+  | reset => rfl
+  | solve d tf fuel k0 => rfl
+  | ttpInit is => exact ttpInit_reg s is
+
+theorem after_cons (conds : Nat → Cond α) (s : Reg α) (o : Op α) (ops : List (Op α)) :
+    s.after conds (o :: ops) = (s.step conds o).after conds ops := rfl
+
+/-- everything before a `clear` (or a TTP constructor) is forgotten by the registered list -/
+theorem after_clear_reg (conds : Nat → Cond α) (s s' : Reg α) (pre pre' post : List (Op α))
+    (hpost : ∀ o ∈ post, ∀ d tf f k, o ≠ .solve d tf f k) :
+    (s.after conds (pre ++ .clear :: post)).reg = (s'.after conds (pre' ++ .clear :: post)).reg := by
+  have key : ∀ (post : List (Op α)) (a b : Reg α), a.reg = b.reg →
+      (a.after conds post).reg = (b.after conds post).reg := by
+    intro post
+    induction post with
+    | nil => intro a b h; exact h
+    | cons o post ih =>
+      intro a b h
+      rw [after_cons, after_cons]
+      apply ih
+      rw [step_reg, step_reg]
+      cases o <;> simp [h]
+  unfold Reg.after
+  rw [List.foldl_append, List.foldl_append]
+  exact key post _ _ rfl
+
+/-- the solve of two states that agree on the registered list and on the latches of the registered
+objects: same last row, same stop decision, same latches of the registered objects afterwards -/
+theorem solve_congr (conds : Nat → Cond α) (s s' : Reg α)
+    (hreg : s.reg = s'.reg) (hl : ∀ r ∈ s.reg, s.latches r.1 = s'.latches r.1)
+    (d : PData α) (tf : α) (fuel k0 : Nat) :
+    (s.solve conds d tf fuel k0).1 = (s'.solve conds d tf fuel k0).1 ∧
+    (s.solve conds d tf fuel k0).2.1 = (s'.solve conds d tf fuel k0).2.1 ∧
+    ∀ r ∈ s.reg, (s.solve conds d tf fuel k0).2.2.latches r.1 =
+                 (s'.solve conds d tf fuel k0).2.2.latches r.1 := by
+  have hent : s.entries conds = s'.entries conds := by
+    unfold Reg.entries
+    rw [← hreg]
+    apply List.map_congr_left
+    intro r hr
+    rw [hl r hr]
+  refine ⟨?_, ?_, ?_⟩
+  · simp only [Reg.solve, hent]
+  · simp only [Reg.solve, hent]
+  · intro r hr
+    simp only [Reg.solve, Reg.writeBack, hent, ← hreg]
+    split
+    · rfl
+    · exact hl r hr
+
+/-- **the stop decision after any history is a function of the currently registered list and the
+run**: two models with arbitrary pasts (any initial states, any sequences of add / clear / reset /
+solve / TTP-constructor calls) whose registered lists are equal now and whose registered objects
+carry the same latches end the same run at the same row with the same stop decision.  Nothing
+else of the past (what was registered and cleared earlier, how many and-conditions ever existed)
+enters. -/
+theorem stop_depends_on_registered_only (conds : Nat → Cond α) (s0 s0' : Reg α)
+    (ops ops' : List (Op α))
+    (hreg : (s0.after conds ops).reg = (s0'.after conds ops').reg)
+    (hl : ∀ r ∈ (s0.after conds ops).reg,
+      (s0.after conds ops).latches r.1 = (s0'.after conds ops').latches r.1)
+    (d : PData α) (tf : α) (fuel k0 : Nat) :
+    ((s0.after conds ops).solve conds d tf fuel k0).1 =
+      ((s0'.after conds ops').solve conds d tf fuel k0).1 ∧
+    ((s0.after conds ops).solve conds d tf fuel k0).2.1 =
+      ((s0'.after conds ops').solve conds d tf fuel k0).2.1 :=
+  ⟨(solve_congr conds _ _ hreg hl d tf fuel k0).1, (solve_congr conds _ _ hreg hl d tf fuel k0).2.1⟩
+
+/-- the decision itself: `solve` is the loop of `run` on the registered entries, nothing else -/
+theorem solve_eq_run (conds : Nat → Cond α) (s : Reg α) (d : PData α) (tf : α) (fuel k0 : Nat) :
+    ((s.solve conds d tf fuel k0).1, (s.solve conds d tf fuel k0).2.1) =
+      ((run d tf fuel k0 (s.entries conds)).1, (run d tf fuel k0 (s.entries conds)).2.1) := rfl
+
+/-- only or-conditions registered: the and-branch contributes nothing -/
+theorem stopFlag_all_or (es : List (Entry α)) (h : ∀ e ∈ es, e.isOr = true) :
+    (stopFlag es = true ↔ ∃ e ∈ es, e.l.sat = true) ∧ stopFlag es = (accumulate es).1 := by
+  have hc : es.countP (fun e => !e.isOr) = 0 := by
+    rw [List.countP_eq_zero]
+    intro e he; simp [h e he]
+  refine ⟨?_, ?_⟩
+  · rw [stopFlag_iff, hc]
+    constructor
+    · rintro (⟨e, he, _, hs⟩ | ⟨hpos, _⟩)
+      · exact ⟨e, he, hs⟩
+      · omega
+    · rintro ⟨e, he, hs⟩
+      exact Or.inl ⟨e, he, h e he, hs⟩
+  · obtain ⟨_, _, h3⟩ := accumulate_spec es false true 0
+    try simp only at h3
+    unfold stopFlag accumulate
+    simp only [h3, hc, Nat.zero_add, if_true, Bool.or_false]
+
+theorem after_noAnd_allOr (conds : Nat → Cond α) (ops : List (Op α)) (s : Reg α)
+    (hs : ∀ r ∈ s.reg, r.2 = true) (hops : ∀ o ∈ ops, o.addsAnd = false) :
+    ∀ r ∈ (s.after conds ops).reg, r.2 = true := by
+  induction ops generalizing s with
+  | nil => exact hs
+  | cons o ops ih =>
+    rw [after_cons]
+    apply ih
+    · have ho := hops o (List.mem_cons_self ..)
+      rw [step_reg]
+      cases o with
+      | add i b =>
+        cases b with
+        | false => simp [Op.addsAnd] at ho
+        | true =>
+          intro r hr
+          simp only [List.mem_append, List.mem_singleton] at hr
+          rcases hr with hr | rfl
+          · exact hs r hr
+          · rfl
+      | clear => intro r hr; simp at hr
+      | reset => exact hs
+      | solve d tf fuel k0 => exact hs
+      | ttpInit is => simp [Op.addsAnd] at ho
+    · intro o' ho'; exact hops o' (List.mem_cons_of_mem _ ho')
+
+/-- **after `clearStoppingConditions()`, with no and-condition registered since, the and-branch
+contributes false**: whatever was registered before the clear (any state `s`, e.g. the
+and-conditions of a TTP calculator), after any later calls that register no and-condition the
+entries are all 'or', the number of and-conditions is 0, and the stop flag is exactly
+"some registered or-condition is satisfied". -/
+theorem clear_then_no_and_never_stops (conds : Nat → Cond α) (s : Reg α) (ops : List (Op α))
+    (hops : ∀ o ∈ ops, o.addsAnd = false) :
+    (∀ e ∈ (s.clear.after conds ops).entries conds, e.isOr = true) ∧
+    ((s.clear.after conds ops).entries conds).countP (fun e => !e.isOr) = 0 ∧
+    (stopFlag ((s.clear.after conds ops).entries conds) = true ↔
+      ∃ e ∈ (s.clear.after conds ops).entries conds, e.l.sat = true) ∧
+    stopFlag ((s.clear.after conds ops).entries conds) =
+      (accumulate ((s.clear.after conds ops).entries conds)).1 := by
+  have hall : ∀ e ∈ (s.clear.after conds ops).entries conds, e.isOr = true := by
+    intro e he
+    unfold Reg.entries at he
+    obtain ⟨r, hr, rfl⟩ := List.mem_map.mp he
+    exact after_noAnd_allOr conds ops s.clear (by intro r hr; simp [Reg.clear] at hr) hops r hr
+  refine ⟨hall, ?_, (stopFlag_all_or _ hall).1, (stopFlag_all_or _ hall).2⟩
+  rw [List.countP_eq_zero]
+  intro e he; simp [hall e he]
+
+theorem evolve_nil (d : PData α) (k : Nat) : evolve d ([] : List (Entry α)) k = [] := by
+  rw [evolve_eq]; rfl
+
+/-- **a model with no registered conditions always runs to the end time** -/
+theorem no_conditions_run_to_end (d : PData α) (tf : α) (fuel N : Nat) (hf : N ≤ fuel)
+    (htime : ∀ j, j < N → d.time j < tf) (hend : ¬ d.time N < tf) :
+    run d tf fuel 0 ([] : List (Entry α)) = (N, false, []) := by
+  have := run_to_end d tf [] fuel N hf htime hend (by intro j _ _; rw [evolve_nil]; rfl)
+  rw [this, evolve_nil]
+
+/-- the same on the registration state: after a clear and any calls that register nothing, a
+solve from row 0 ends at the first row at or beyond the end time, not stopped -/
+theorem cleared_model_runs_to_end (conds : Nat → Cond α) (s : Reg α) (ops : List (Op α))
+    (hops : ∀ o ∈ ops, (∃ d tf f k, o = .solve d tf f k) ∨ o = .reset ∨ o = .clear)
+    (d : PData α) (tf : α) (fuel N : Nat) (hf : N ≤ fuel)
+    (htime : ∀ j, j < N → d.time j < tf) (hend : ¬ d.time N < tf) :
+    ((s.clear.after conds ops).solve conds d tf fuel 0).1 = N ∧
+    ((s.clear.after conds ops).solve conds d tf fuel 0).2.1 = false := by
+  have hreg : ∀ (ops : List (Op α)) (a : Reg α), a.reg = [] →
+      (∀ o ∈ ops, (∃ d tf f k, o = .solve d tf f k) ∨ o = .reset ∨ o = .clear) →
+      (a.after conds ops).reg = [] := by
+    intro ops
+    induction ops with
+    | nil => intro a h _; exact h
+    | cons o ops ih =>
+      intro a h ho
+      rw [after_cons]
+      apply ih
+      · rw [step_reg]
+        rcases ho o (List.mem_cons_self ..) with ⟨d, tf, f, k, rfl⟩ | rfl | rfl <;> simp [h]
+      · intro o' ho'; exact ho o' (List.mem_cons_of_mem _ ho')
+  have he : (s.clear.after conds ops).entries conds = [] := by
+    unfold Reg.entries; rw [hreg ops s.clear rfl hops]; rfl
+  simp only [Reg.solve, he, no_conditions_run_to_end d tf fuel N hf htime hend]
+  exact ⟨trivial, trivial⟩
+
+/-- `reset()` on the registration state is `resetAll` on what `postProcess` loops over -/
+theorem resetModel_entries (conds : Nat → Cond α) (s : Reg α) :
+    s.resetModel.entries conds = resetAll (s.entries conds) := by
+  unfold Reg.entries resetAll Reg.resetModel
+  simp only [List.map_map]
+  apply List.map_congr_left
+  intro r hr
+  have : (s.reg.any fun r' => r'.1 == r.1) = true :=
+    List.any_eq_true.mpr ⟨r, hr, by simp⟩
+  simp [Function.comp, this]
+
+/-- **the TTP calculator sees only its own conditions**: the times it reports for a temperature
+are the same whatever the model carried before the calculator was constructed (any registered
+list, any latches: states `s`, `s'` are arbitrary), and the run it makes is the loop of `run`
+from clear latches over exactly the calculator's conditions, all in 'and' mode (so
+`ttpTimes_eq`, `stopFlag_all_and`, `run_stops_at_first`, `run_to_end` describe it). -/
+theorem ttp_sees_only_its_conditions (conds : Nat → Cond α) (s s' : Reg α) (is : List Nat)
+    (d : PData α) (tf : α) (fuel : Nat) :
+    (Reg.ttpStopTimes conds (s.ttpInit is) is d tf fuel).1 =
+      (Reg.ttpStopTimes conds (s'.ttpInit is) is d tf fuel).1 ∧
+    (s.ttpInit is).resetModel.entries conds =
+      is.map (fun i => (⟨conds i, false, Latch.clear⟩ : Entry α)) := by
+  have hreg : (s.ttpInit is).resetModel.reg = (s'.ttpInit is).resetModel.reg := by
+    show (s.ttpInit is).reg = (s'.ttpInit is).reg
+    rw [ttpInit_reg, ttpInit_reg]
+  have hclear : ∀ (a : Reg α), ∀ r ∈ a.reg, a.resetModel.latches r.1 = Latch.clear := by
+    intro a r hr
+    have : (a.reg.any fun r' => r'.1 == r.1) = true := List.any_eq_true.mpr ⟨r, hr, by simp⟩
+    simp only [Reg.resetModel, this, ↓reduceIte]
+  have hl : ∀ r ∈ (s.ttpInit is).resetModel.reg,
+      (s.ttpInit is).resetModel.latches r.1 = (s'.ttpInit is).resetModel.latches r.1 := by
+    intro r hr
+    have hr' : r ∈ (s'.ttpInit is).reg := by
+      have : r ∈ (s.ttpInit is).reg := hr
+      rw [ttpInit_reg] at this; rw [ttpInit_reg]; exact this
+    rw [hclear (s.ttpInit is) r hr, hclear (s'.ttpInit is) r hr']
+  have h3 := (solve_congr conds _ _ hreg hl d tf fuel 0).2.2
+  refine ⟨?_, ?_⟩
+  · unfold Reg.ttpStopTimes
+    apply List.map_congr_left
+    intro i hi
+    have hmem : (i, false) ∈ (s.ttpInit is).resetModel.reg := by
+      show (i, false) ∈ (s.ttpInit is).reg
+      rw [ttpInit_reg]; exact List.mem_map.mpr ⟨i, hi, rfl⟩
+    have := h3 (i, false) hmem
+    simp only at this
+    rw [this]
+  · rw [resetModel_entries]
+    unfold Reg.entries resetAll
+    rw [ttpInit_reg]
+    simp [List.map_map, Function.comp]
+
+/-! #### witnesses: the two broken variants -/
+
+/-- the counter variant agrees with the code exactly as long as the counter equals the number of
+registered and-conditions … -/
+theorem stopFlagCnt_in_sync (es : List (Entry α)) :
+    stopFlagCnt (es.countP (fun e => !e.isOr)) es = stopFlag es := by
+  obtain ⟨_, _, h3⟩ := accumulate_spec es false true 0
+  try simp only at h3
+  unfold stopFlagCnt stopFlag accumulate
+  simp only [h3, Nat.zero_add]
+
+/-- … **stale counter**: history `addStoppingCondition(c, 'and'); clearStoppingConditions()`.
+Nothing is registered afterwards and the code's stop flag after the first step is false (the
+run goes on), but a counter that `clear` does not take back is 1 and the flag of the counter
+variant is true: the run would end after its first step with no condition met. -/
+theorem stale_counter_stops_empty_run (conds : Nat → Cond α) (d : PData α) :
+    ((Reg.fresh : Reg α).after conds [.add 0 false, .clear]).entries conds = [] ∧
+    stopFlag (testAll d 1 (((Reg.fresh : Reg α).after conds [.add 0 false, .clear]).entries conds)) = false ∧
+    staleCount 0 ([.add 0 false, .clear] : List (Op α)) = 1 ∧
+    stopFlagCnt (staleCount 0 ([.add 0 false, .clear] : List (Op α)))
+      (testAll d 1 (((Reg.fresh : Reg α).after conds [.add 0 false, .clear]).entries conds)) = true := by
+  refine ⟨rfl, rfl, rfl, rfl⟩
+
+/-- the same with an or-condition that is not met registered after the clear -/
+theorem stale_counter_stops_unmet_or (c : Cond α) :
+    stopFlag [(⟨c, true, ⟨false, 0⟩⟩ : Entry α)] = false ∧
+    stopFlagCnt 1 [(⟨c, true, ⟨false, 0⟩⟩ : Entry α)] = true := ⟨rfl, rfl⟩
+
+/-- **constructor that keeps old conditions**: a model that carries an or-condition and is then
+given to the variant constructor still has it registered, in front of the calculator's own. -/
+theorem ttpInitKeep_keeps (s : Reg α) (i : Nat) (is : List Nat) :
+    ∃ rest, ((s.clear.add i true).ttpInitKeep is).reg = (i, true) :: rest := by
+  have key : ∀ (is : List Nat) (a : Reg α) (r : Nat × Bool) (tl : List (Nat × Bool)),
+      a.reg = r :: tl → ∃ rest, (a.ttpInitKeep is).reg = r :: rest := by
+    intro is
+    induction is with
+    | nil => intro a r tl h; exact ⟨tl, h⟩
+    | cons j is ih =>
+      intro a r tl h
+      unfold Reg.ttpInitKeep
+      simp only [List.foldl_cons]
+      by_cases hj : (a.reg.any fun r => r.1 == j) = true
+      · simp only [hj, if_true]; exact ih a r tl h
+      · simp only [hj]
+        exact ih (a.add j false) r (tl ++ [(j, false)]) (by simp [Reg.add, h])
+  exact key is (s.clear.add i true) (i, true) [] rfl
+
+/-- concrete run (ℚ, the `demo` history: time k = k, volFrac k = k/10): the model carries the
+or-condition f > 1/4; the calculator is given f > 1/4 and f > 11/20.  The code's constructor gives a
+run that ends at row 6 with both times reported (5/2, 11/2); the variant's run ends at row 3 —
+when the left-over or-condition is met — and the second condition is reported as not reached (−1). -/
+def demoConds : Nat → Cond ℚ
+  | 2 => ⟨.volFrac, .gt, 11/20, 0⟩
+  | _ => ⟨.volFrac, .gt, 1/4, 0⟩
+
 /-! ### non-vacuity: concrete instances of the hypothesis sets -/
 
 /-- a one-phase history over ℚ: time k = k, volFrac k = k/10 -/
@@ -707,5 +1049,50 @@ example : (run demo 2 20 0 [⟨demoC, true, Latch.clear⟩]).1 = 2 := by
   simp [run, testAll, stopFlag, accumulate, test, holds, poll, PData.array, demo, demoC, Latch.clear, crossTime]
   norm_num
 example : indexOf "B" ["A", "B", "B"] = some 1 := by decide
+
+/-! #### histories: concrete witness for the constructor variant, non-vacuity of the new hypothesis sets -/
+
+/-- see `demoConds`: the code's constructor (`ttpInit`) vs. the variant that keeps what the model
+carried (`ttpInitKeep`), model carrying the or-condition f > 1/4 (pool object 0) -/
+theorem keep_constructor_reports_unreached :
+    ((((Reg.fresh : Reg ℚ).add 0 true).ttpInit [1,2]).resetModel.solve demoConds demo 10 20 0).1 = 6 ∧
+    (Reg.ttpStopTimes demoConds (((Reg.fresh : Reg ℚ).add 0 true).ttpInit [1,2]) [1,2] demo 10 20).1 = [5/2, 11/2] ∧
+    ((((Reg.fresh : Reg ℚ).add 0 true).ttpInitKeep [1,2]).resetModel.solve demoConds demo 10 20 0).1 = 3 ∧
+    (Reg.ttpStopTimes demoConds (((Reg.fresh : Reg ℚ).add 0 true).ttpInitKeep [1,2]) [1,2] demo 10 20).1 = [5/2, -1] := by
+  refine ⟨?_, ?_, ?_, ?_⟩
+  · simp [Reg.solve, Reg.resetModel, Reg.ttpInit, Reg.add, Reg.clear, Reg.fresh, Reg.entries, demoConds,
+      run, testAll, stopFlag, accumulate, test, holds, poll, PData.array, demo, Latch.clear, crossTime]
+    norm_num
+  · simp [Reg.ttpStopTimes, Reg.solve, Reg.writeBack, Reg.resetModel, Reg.ttpInit, Reg.add, Reg.clear, Reg.fresh,
+      Reg.entries, demoConds, run, testAll, stopFlag, accumulate, test, holds, poll, PData.array, demo, Latch.clear, crossTime]
+    norm_num
+  · simp [Reg.solve, Reg.resetModel, Reg.ttpInitKeep, Reg.add, Reg.fresh, Reg.entries, demoConds,
+      run, testAll, stopFlag, accumulate, test, holds, poll, PData.array, demo, Latch.clear, crossTime]
+    norm_num
+  · simp [Reg.ttpStopTimes, Reg.solve, Reg.writeBack, Reg.resetModel, Reg.ttpInitKeep, Reg.add, Reg.fresh,
+      Reg.entries, demoConds, run, testAll, stopFlag, accumulate, test, holds, poll, PData.array, demo, Latch.clear, crossTime]
+    norm_num
+
+-- hypothesis set of `clear_then_no_and_never_stops`: a history after the clear that registers no and-condition
+example : ∀ o ∈ ([.add 0 true, .reset, .solve demo 10 20 0, .clear, .add 1 true] : List (Op ℚ)), o.addsAnd = false := by
+  intro o ho
+  simp only [List.mem_cons, List.not_mem_nil, or_false] at ho
+  rcases ho with rfl | rfl | rfl | rfl | rfl <;> rfl
+-- … and it is not satisfied by a history that registers one (the hypothesis excludes something)
+example : ¬ ∀ o ∈ ([.add 0 false] : List (Op ℚ)), o.addsAnd = false := by
+  intro h; exact absurd (h _ (List.mem_singleton.mpr rfl)) (by simp [Op.addsAnd])
+-- hypothesis set of `stop_depends_on_registered_only`: two different pasts, same registered list and latches now
+example : ((Reg.fresh : Reg ℚ).after demoConds [.add 0 false, .add 2 true, .clear, .add 1 true]).reg =
+          ((Reg.fresh : Reg ℚ).after demoConds [.ttpInit [0, 2], .clear, .add 1 true]).reg ∧
+    ∀ r ∈ ((Reg.fresh : Reg ℚ).after demoConds [.add 0 false, .add 2 true, .clear, .add 1 true]).reg,
+      ((Reg.fresh : Reg ℚ).after demoConds [.add 0 false, .add 2 true, .clear, .add 1 true]).latches r.1 =
+      ((Reg.fresh : Reg ℚ).after demoConds [.ttpInit [0, 2], .clear, .add 1 true]).latches r.1 :=
+  ⟨rfl, fun _ _ => rfl⟩
+-- hypothesis set of `cleared_model_runs_to_end` / `no_conditions_run_to_end` on the demo history (end time 5/2: row 3)
+example : (∀ j, j < 3 → demo.time j < (5/2 : ℚ)) ∧ ¬ demo.time 3 < (5/2 : ℚ) := by
+  refine ⟨?_, by simp [demo]; norm_num⟩
+  intro j hj
+  have : j = 0 ∨ j = 1 ∨ j = 2 := by omega
+  rcases this with rfl | rfl | rfl <;> simp [demo] <;> norm_num
 
 end KawinV.Props.C19
